@@ -120,7 +120,33 @@ def panic_sites(files):
                     n = len([x for x in re.finditer(pat, body) if not body[max(0, x.start() - 4):x.start() + 1].endswith("vec!")])
                 if n:
                     sites.append((os.path.basename(rel), name, kind, n))
-    return sites
+    # aggregated per file and kind: moving code between functions of a file (extracting a helper)
+    # does not change the table, a new or removed site does
+    agg = {}
+    order = []
+    for f, _, kind, n in sites:
+        if (f, kind) not in agg:
+            agg[(f, kind)] = 0
+            order.append((f, kind))
+        agg[(f, kind)] += n
+    return [(f, kind, agg[(f, kind)]) for f, kind in order]
+
+def body_global_mutators():
+    """functions reachable from `function_body` through `self.f(…)` / `Self::f(…)` calls that contain a
+    statement mutating `self.global` (C17: bodies are analysed independently) — expected: none"""
+    src = read("src/semantic.rs")
+    bodies = dict(fn_bodies(src))
+    mut = re.compile(r"self\s*\.\s*global\s*\.\s*\w+\s*\.\s*(?:insert|push|remove|clear|retain|drain|entry|get_mut|iter_mut|extend|append|truncate|pop|swap\w*)\s*\(|self\s*\.\s*global(?:\s*\.\s*\w+)*\s*=[^=]")
+    seen, todo = set(), ["function_body"]
+    while todo:
+        f = todo.pop()
+        if f in seen or f not in bodies:
+            continue
+        seen.add(f)
+        for g in re.findall(r"(?:self\s*\.|Self::)\s*(\w+)\s*\(", bodies[f]):
+            if g in bodies and g not in seen:
+                todo.append(g)
+    return sorted(f for f in seen if mut.search(bodies[f]))
 
 def mutation_sites():
     src = read("src/semantic.rs")
@@ -135,12 +161,15 @@ def mutation_sites():
             ("context.push", r"self\s*\.\s*context\s*\.\s*(?!len|is_empty|iter|clone|first|last|get)\w+\("),
             ("add_error", r"self\s*\.\s*add_error\("),
             ("add_state_context", r"self\s*\.\s*add_state_context\(")]
+    # totals per kind over the whole file (robust against extracting helpers); where a mutation
+    # of `self.global` may occur is decided by reachability (`body_global_mutators`)
+    tot = {}
     for name, body in fn_bodies(src):
         for kind, pat in pats:
             n = len(re.findall(pat, body))
             if n:
-                sites.append((name, kind, n))
-    return sites
+                tot[kind] = tot.get(kind, 0) + n
+    return [(kind, tot[kind]) for kind, _ in pats if kind in tot]
 
 def serde_shapes():
     """(file, item name, serde attribute summary, field/variant names) for every item that derives
@@ -222,6 +251,7 @@ def main():
     prim_names = re.findall(r'Self::(\w+) => "([^"]*)"', m.group(1))
     psites = panic_sites(["src/semantic.rs", "src/types/block_state.rs"])
     msites = mutation_sites()
+    bgm = body_global_mutators()
     shapes = serde_shapes()
 
     L = []
@@ -253,16 +283,20 @@ def main():
     L.append("def primNames : List (String × String) := [" + ", ".join("(%s, %s)" % (lean_str(a), lean_str(b)) for a, b in prim_names) + "]")
     L.append("")
     L.append("/-- every `unwrap` / `expect` / `unreachable!` / `panic!` / slice index / counter `+ 1` in the")
-    L.append("non-codec code of semantic.rs and block_state.rs: (file, function, kind, occurrences) -/")
-    L.append("def panicSites : List (String × String × String × Nat) := [")
-    L.append(",\n".join("  (%s, %s, %s, %d)" % (lean_str(a), lean_str(b), lean_str(c), d) for a, b, c, d in psites))
+    L.append("non-codec code of semantic.rs and block_state.rs, per file and kind: (file, kind, occurrences) -/")
+    L.append("def panicSites : List (String × String × Nat) := [")
+    L.append(",\n".join("  (%s, %s, %d)" % (lean_str(a), lean_str(c), d) for a, c, d in psites))
     L.append("]")
     L.append("")
-    L.append("/-- every statement of semantic.rs that mutates `self.global`, `self.errors` or `self.context`:")
-    L.append("(function, kind, occurrences) -/")
-    L.append("def mutationSites : List (String × String × Nat) := [")
-    L.append(",\n".join("  (%s, %s, %d)" % (lean_str(a), lean_str(b), c) for a, b, c in msites))
+    L.append("/-- the statements of semantic.rs that mutate `self.global`, `self.errors` or `self.context`, and the")
+    L.append("calls of `add_error` / `add_state_context`, per kind: (kind, occurrences) -/")
+    L.append("def mutationSites : List (String × Nat) := [")
+    L.append(",\n".join("  (%s, %d)" % (lean_str(a), c) for a, c in msites))
     L.append("]")
+    L.append("")
+    L.append("/-- functions reachable from `function_body` (through `self.f(…)` calls) that contain a statement")
+    L.append("mutating `self.global` -/")
+    L.append("def bodyGlobalMutators : List String := [" + ", ".join(lean_str(f) for f in bgm) + "]")
     L.append("")
     L.append("/-- serde shape of every item deriving `Serialize` under the `codec` feature:")
     L.append("(file, item, container attributes, fields or variants) -/")
